@@ -10,6 +10,11 @@ Workloads
           connect to an absent peer is pending
   scan    active and passive scanners, advertisers with distinct advertising and
           scan-response payloads
+  dual    a device that advertises (legacy / extended, own address PUBLIC / RANDOM, auto-restart on / off)
+          AND initiates: outgoing connection to a third device while advertising, then connected to, the
+          two connections ended in either order with stop_advertising() / start_advertising() in between;
+          both ends of every connection agree on peer / self addresses, and Device.is_advertising and what a
+          scanner hears both match an independent ledger of the advertising state
 """
 from __future__ import annotations
 
@@ -23,8 +28,13 @@ ID = 'C06'
 LEVEL = 'exploration'
 RULE = ('seeded scenarios; mesh: non-trivial when >= 3 devices or a public own-address or extended advertising is '
         'involved; distinct = distinct (address types, advertising kinds, connection graph, disconnect order). '
-        'scan: one per (scanner modes, advertiser kinds, payload lengths)')
+        'scan: one per (scanner modes, advertiser kinds, payload lengths); dual: one per (advertiser kind, own-address '
+        'types, auto-restart, order of connects / disconnects / stop / start)')
 ASSUMPTIONS = [
+    'dual: an outgoing connection does not change whether a device advertises; an incoming connection ends the '
+    'advertising it was made through; auto-restart resumes that advertising when that connection ends unless the host '
+    'called stop_advertising()/start_advertising() in the meantime; Device.is_advertising is not judged for a legacy '
+    'advertiser kept for auto-restart while the connection that paused it is up',
     'a connect() to an address nobody advertises legitimately pends; only "no foreign connection is handed over" '
     'and "the timeout concludes it" are demanded there',
     'advertisement events may repeat; the clause is on the data of each event, and on at least one event per '
@@ -33,10 +43,16 @@ ASSUMPTIONS = [
 MIN_EVENTS = {
     'quick': {'connections_checked': 1500, 'payloads_checked': 8000, 'disconnections_checked': 1000,
               'adv_events_checked': 2000, 'steal_cases': 120, 'churn_cases': 200, 'fragadv_cases': 60, 'ghost_cases': 30,
-              'advset_phases_verified': 300, 'last_words_checked': 150, 'advset_handle_reused_after_remove': 40},
+              'advset_phases_verified': 300, 'last_words_checked': 150, 'advset_handle_reused_after_remove': 40,
+              'dual_cases': 150, 'dual_connections_checked': 400, 'dual_observations': 1000,
+              'dual_is_advertising_checked': 800, 'dual_outgoing_while_advertising': 100,
+              'dual_incoming_after_outgoing': 120, 'dual_stop_start_steps': 80},
     'thorough': {'connections_checked': 10000, 'payloads_checked': 60000, 'disconnections_checked': 7000,
                  'adv_events_checked': 6000, 'steal_cases': 1000, 'churn_cases': 1000, 'fragadv_cases': 400, 'ghost_cases': 200,
-                 'advset_phases_verified': 2400, 'last_words_checked': 1200, 'advset_handle_reused_after_remove': 300},
+                 'advset_phases_verified': 2400, 'last_words_checked': 1200, 'advset_handle_reused_after_remove': 300,
+                 'dual_cases': 1200, 'dual_connections_checked': 3200, 'dual_observations': 8000,
+                 'dual_is_advertising_checked': 6400, 'dual_outgoing_while_advertising': 800,
+                 'dual_incoming_after_outgoing': 1000, 'dual_stop_start_steps': 640},
 }
 CASE_TIMEOUT = 300
 CID = 0x0074
@@ -60,6 +76,8 @@ def plan(tier, seed):
         cases.append({'kind': 'fragadv', 'seed': seed * 1000003 + i})
     for i in range(150 if tier == 'quick' else 1200):
         cases.append({'kind': 'advsets', 'seed': seed * 1000003 + i})
+    for i in range(200 if tier == 'quick' else 1600):
+        cases.append({'kind': 'dual', 'seed': seed * 1000003 + i})
     return cases
 
 
@@ -823,15 +841,241 @@ async def advsets(case, r: R):
     r.sample = {'kind': 'advsets', 'history': [(h[0], h[1], h[2], len(h[3])) for h in hist]}
 
 
+async def dual(case, r: R):
+    """B advertises AND initiates: while advertising (legacy or extended, own address PUBLIC or RANDOM, with or
+    without auto-restart) it completes an outgoing connection to C, then A connects to B's advertised address. An
+    independent ledger says whether B is advertising now (only start/stop, an INCOMING connection, and the end of
+    that incoming connection under auto-restart change it); a scanner S tells what is really on the air. Both ends of
+    every connection must agree on peer / self addresses, is_advertising must match the ledger and the scanner, and
+    a later stop_advertising() / start_advertising() must do what it says."""
+    from bumble import hci, core
+    from vlib import rig as vrig
+    rng = random.Random(case['seed'])
+    vrig.seed_entropy(case['seed'])
+    ext_b = rng.random() < 0.5
+    rg = make_rig(rng, case, 4, [rng.random() < 0.3, ext_b, rng.random() < 0.3, rng.random() < 0.5])
+    await rg.power_on()
+    ev = Events(rg)
+    A, B, C, S = rg.devices
+    pub = rng.random() < 0.5
+    restart = rng.random() < 0.5
+    own = hci.OwnAddressType.PUBLIC if pub else hci.OwnAddressType.RANDOM
+    target = B.public_address if pub else B.random_address
+    kind = f'{"extended" if ext_b else "legacy"}/{"public" if pub else "random"}/{"auto-restart" if restart else "no-restart"}'
+    init_pub = rng.random() < 0.3          # own address type B uses as an initiator
+    hist = []
+    heard = []
+    S.on('advertisement', lambda a: heard.append(a))
+    await vloop.vwait(S.start_scanning(active=False))
+    adv = [False]       # the ledger
+
+    async def start_adv():
+        await vloop.vwait(B.start_advertising(auto_restart=restart, own_address_type=own,
+                                              advertising_interval_min=40, advertising_interval_max=40))
+        adv[0] = True
+
+    async def observe(after):
+        """What is on the air vs the ledger vs Device.is_advertising."""
+        await rg.quiesce()
+        await asyncio.sleep(0.3)        # lets a pending auto-restart finish
+        await rg.quiesce()
+        del heard[:]
+        await asyncio.sleep(0.5)
+        await rg.quiesce()
+        on_air = any(a.address == target for a in heard)
+        r.ev('dual_observations')
+        r.ev('adv_events_checked', len(heard))
+        r.ev('oracle_evals', 2)
+        # the advertising state does not depend on the address type; what matters is the advertiser kind, the
+        # auto-restart setting and whether the host stopped / restarted advertising while the incoming connection was up
+        akind = kind.split('/')[0] + '/' + kind.split('/')[2]
+        if 'incoming-connected' in hist and not auto_restart_armed(hist):
+            akind += '/stopped-or-started-while-connected'
+        if on_air != adv[0]:
+            r.bad(f'dual/advertising-state/on-air/{after}/{akind}',
+                  f'after {hist}: the scanner {"hears" if on_air else "does not hear"} {target}, but by the calls made '
+                  f'and the connections accepted so far B {"is" if adv[0] else "is not"} advertising '
+                  f'(is_advertising={B.is_advertising})')
+            return False
+        # (a legacy advertiser kept for auto-restart counts as "advertising" for the Device while the connection
+        # that paused it is up: is_advertising is not judged in that state)
+        if not (not ext_b and restart and incoming_live[0]):
+            r.ev('dual_is_advertising_checked')
+            if bool(B.is_advertising) != adv[0]:
+                r.bad(f'dual/advertising-state/is-advertising/{after}/{akind}',
+                      f'after {hist}: is_advertising={B.is_advertising}, the scanner '
+                      f'{"hears" if on_air else "does not hear"} {target}')
+                # (what is on the air agrees with the ledger: the scenario goes on)
+        return True
+
+    def agree(tag, c_init, c_acc, acc_addr, init_addr):
+        """c_init: the initiator's Connection, c_acc: the acceptor's; acc_addr: the advertised address that was
+        connected to; init_addr: the address the initiator used."""
+        r.ev('connections_checked')
+        r.ev('dual_connections_checked')
+        r.ev('oracle_evals', 4)
+        ok = True
+        for what, got, want in (('initiator.peer_address', c_init.peer_address, acc_addr),
+                                ('acceptor.self_address', c_acc.self_address, acc_addr),
+                                ('acceptor.peer_address', c_acc.peer_address, init_addr),
+                                ('initiator.self_address', c_init.self_address, init_addr)):
+            if got != want:
+                ok = False
+                r.bad(f'connect/address-mismatch/dual/{tag}/{kind}',
+                      f'{what} is {got!r}, the address used on the air is {want!r}; after {hist}')
+        return ok
+
+    async def connect(x, xi, target_addr, acc_dev, own_type=hci.OwnAddressType.RANDOM):
+        before = len(ev.conn[acc_dev])
+        c = await vloop.vwait(x.connect(target_addr, own_address_type=own_type, timeout=20))
+        await rg.quiesce()
+        new = [k for k in ev.conn[acc_dev][before:] if k.role == hci.Role.PERIPHERAL]
+        r.ev('oracle_evals')
+        if len(new) != 1:
+            r.bad(f'connect/peer-events/dual/{kind}', f'device {acc_dev} got {len(new)} incoming connection events for one '
+                                                      f'connect by device {xi}; after {hist}')
+            return c, None
+        return c, new[0]
+
+    incoming_live = [False]
+    out_pair = in_pair = None
+    try:
+        await vloop.vwait(C.start_advertising(auto_restart=False, advertising_interval_min=40, advertising_interval_max=40))
+        adv_first = rng.random() < 0.8
+        if adv_first:
+            await start_adv()
+            hist.append('start_advertising')
+        # ---- B's outgoing connection (B is central) while it advertises
+        b_own = hci.OwnAddressType.PUBLIC if init_pub else hci.OwnAddressType.RANDOM
+        b_init_addr = B.public_address if init_pub else B.random_address
+        out_pair = await connect(B, 1, C.random_address, 2, b_own)
+        hist.append('outgoing-connected')
+        if adv_first:
+            r.ev('dual_outgoing_while_advertising')
+        if out_pair[1] is None or not agree('outgoing', out_pair[0], out_pair[1], C.random_address, b_init_addr):
+            return
+        if not adv_first:
+            await start_adv()
+            hist.append('start_advertising')
+        if not await observe('outgoing-connected'):
+            return
+        if rng.random() < 0.3:
+            # stop and start again between the two connections
+            await vloop.vwait(B.stop_advertising())
+            adv[0] = False
+            hist.append('stop_advertising')
+            if not await observe('stop'):
+                return
+            await start_adv()
+            hist.append('start_advertising')
+            if not await observe('start'):
+                return
+        # ---- A connects to B (B is peripheral)
+        a_pub = rng.random() < 0.3
+        in_pair = await connect(A, 0, target, 1, hci.OwnAddressType.PUBLIC if a_pub else hci.OwnAddressType.RANDOM)
+        adv[0] = False
+        incoming_live[0] = True
+        hist.append('incoming-connected')
+        r.ev('dual_incoming_after_outgoing')
+        if in_pair[1] is None or not agree('incoming', in_pair[0], in_pair[1], target,
+                                           A.public_address if a_pub else A.random_address):
+            return
+        if not await observe('incoming-connected'):
+            return
+        # data both ways on both connections: each PDU reaches its peer only
+        want = {i: [] for i in range(4)}
+        marks = {i: len(ev.rx[i]) for i in range(4)}
+        for k, (s_, d_, cs, cd) in enumerate(((1, 2, out_pair[0], out_pair[1]), (2, 1, out_pair[1], out_pair[0]),
+                                              (0, 1, in_pair[0], in_pair[1]), (1, 0, in_pair[1], in_pair[0]))):
+            p = bytes([0xD0, s_, d_, k])
+            rg.devices[s_].send_l2cap_pdu(cs.handle, CID, p)
+            want[d_].append((cd.handle, p))
+        await rg.quiesce()
+        for i in range(4):
+            r.ev('payloads_checked', len(want[i]))
+            r.ev('oracle_evals')
+            if sorted(ev.rx[i][marks[i]:]) != sorted(want[i]):
+                r.bad(f'data/misdelivered/dual/{kind}', f'device {i} received {ev.rx[i][marks[i]:]}, expected {want[i]}; after {hist}')
+                return
+        # ---- the connections end in either order; stop / start in between
+        todo = ['end-outgoing', 'end-incoming'] + rng.sample(['stop', 'start', 'stop-start'], rng.choice([0, 1, 1, 2]))
+        rng.shuffle(todo)
+        for step in todo:
+            if step == 'end-outgoing':
+                c = rng.choice(out_pair)
+                await vloop.vwait(c.disconnect())
+                hist.append('outgoing-disconnected')
+            elif step == 'end-incoming':
+                c = rng.choice(in_pair)
+                await vloop.vwait(c.disconnect())
+                incoming_live[0] = False
+                hist.append('incoming-disconnected')
+                if restart and auto_restart_armed(hist):
+                    adv[0] = True
+            elif step == 'stop':
+                await vloop.vwait(B.stop_advertising())
+                adv[0] = False
+                hist.append('stop_advertising')
+            elif step == 'start':
+                await start_adv()
+                hist.append('start_advertising')
+            else:
+                await vloop.vwait(B.stop_advertising())
+                await start_adv()
+                hist.append('stop_advertising')
+                hist.append('start_advertising')
+            r.ev('disconnections_checked' if step.startswith('end') else 'dual_stop_start_steps')
+            if not await observe(hist[-1].replace('_', '-')):
+                return
+        # ---- and at the end stop_advertising() / start_advertising() do what they say, and B can be connected to again
+        await vloop.vwait(B.stop_advertising())
+        adv[0] = False
+        hist.append('stop_advertising')
+        if not await observe('final-stop'):
+            return
+        await start_adv()
+        hist.append('start_advertising')
+        if not await observe('final-start'):
+            return
+        again = await connect(A, 0, target, 1)
+        adv[0] = False
+        incoming_live[0] = True
+        hist.append('incoming-connected')
+        if again[1] is None or not agree('incoming-again', again[0], again[1], target, A.random_address):
+            return
+        if not await observe('incoming-connected-again'):
+            return
+        r.ev('dual_cases_completed')
+    except vloop.Hang:
+        r.bad(f'dual/hang/{kind}', f'a call was still pending at T_v after {hist}')
+    except (core.TimeoutError, asyncio.TimeoutError, core.ConnectionError, hci.HCI_Error, core.InvalidStateError) as e:
+        r.bad(f'dual/call-failed/{type(e).__name__}/{kind}', f'{type(e).__name__}: {e}; after {hist}')
+    for where, e in rg.exceptions:
+        r.bad('link/exception-in-stack', f'{where}: {e}; dual {kind} after {hist}')
+    r.ev('dual_cases')
+    r.sig('dual', kind, init_pub, tuple(hist))
+    r.sched.add(rg.schedule_signature)
+    r.evals()
+    r.sample = {'kind': 'dual', 'advertiser': kind, 'history': hist}
+
+
+def auto_restart_armed(hist):
+    """Auto-restart belongs to the advertising that was running when the incoming connection was accepted; a
+    stop_advertising() / start_advertising() made while that connection is up is the host's newer word."""
+    i = len(hist) - 1 - hist[::-1].index('incoming-connected')
+    return not any(h in ('stop_advertising', 'start_advertising') for h in hist[i + 1:])
+
+
 def run_case(case, r: R):
     return {'mesh': mesh, 'steal': steal, 'scan': scan, 'churn': churn, 'parallel': parallel,
-            'fragadv': fragadv, 'ghost': ghost, 'advsets': advsets}[case['kind']](case, r)
+            'fragadv': fragadv, 'ghost': ghost, 'advsets': advsets, 'dual': dual}[case['kind']](case, r)
 
 
 LEVEL_TEXT = ('Relations over connection/disconnection/advertisement events and a per-device fixed channel on 2-5 '
               'device rigs: right peer and role, mirrored addresses, live distinct handles, exactly-once in-order '
               'delivery to the peer only, disconnection reported to both, advertising and scan-response data byte '
-              'for byte; ~260 (quick) / ~5200 (thorough) generated topologies over every mix of public/random own '
+              'for byte; devices that advertise and initiate at once (advertising state on the air and in the Device vs '
+              'a ledger); ~260 (quick) / ~5200 (thorough) generated topologies over every mix of public/random own '
               'addresses, legacy/extended advertising, LE and BR/EDR. Sampling, not proof.')
 LEVEL_NOTE = 'Trusted: rig taps/inboxes (LocalLink routing itself is real), the event bookkeeping in checks/c06.py, virtual-time loop.'
 TECHNIQUE = 'runtime monitoring: event-log relation checker over multi-device executions with unique payload ids'
